@@ -441,13 +441,23 @@ def rw_map_collect(body, cnt):
         body = body[:m.start()] + repl + body[c + 1 + tm.end():]
         cnt.hit('R19')
 
+def rw_format(body, cnt):
+    """D5: `format!(..)` only builds error / attribute text, which no clause specifies: the text is dropped"""
+    while True:
+        msk = mask(body)
+        m = re.search(r'\bformat!\s*\(', msk)
+        if not m: return body
+        c = match_close(msk, m.end() - 1)
+        body = body[:m.start()] + 'opaque_text()' + body[c + 1:]
+        cnt.hit('D5')
+
 def rw_paths(body, cnt):
     """D3: the unit is one module; drop `cosmwasm_std::` path qualifiers"""
     body, n = re.subn(r'\bcosmwasm_std::', '', body)
     if n: cnt.hit('D3', n)
     return body
 
-GENERIC = [rw_paths, rw_map_collect, rw_find, rw_update_closure, rw_sum, rw_for_loops, rw_opassign, rw_opassign_arm, rw_closure_underscore]
+GENERIC = [rw_paths, rw_format, rw_map_collect, rw_find, rw_update_closure, rw_sum, rw_for_loops, rw_opassign, rw_opassign_arm, rw_closure_underscore]
 
 # --------------------------------------------------------------------------------------
 
